@@ -171,6 +171,32 @@ def explicit_regs(cls):
     return p, m
 
 
+def listener_append_unconditional(cls):
+    """for add_parameter_listener / add_model_listener as resolved for `cls`: is the body exactly
+    `self.<list>.append(<listener>)` — i.e. every registration is recorded, by identity, with no test that
+    could drop it (an equality / membership test would confuse distinct but equal listeners).
+    -> None when the class has neither method (or only abstract ones), else True / False"""
+    seen_any = False
+    for meth in ("add_parameter_listener", "add_model_listener"):
+        fn, _ = _resolve(cls, meth)
+        if fn is None or getattr(fn, "__isabstractmethod__", False):
+            continue
+        seen_any = True
+        try:
+            node = _fn_ast(fn)
+        except (Unrec, OSError, TypeError, SyntaxError, IndentationError):
+            return False
+        args = [a.arg for a in node.args.args]
+        body = [st for st in node.body if not (isinstance(st, ast.Expr) and isinstance(st.value, ast.Constant))]
+        ok = (len(args) == 2 and len(body) == 1 and isinstance(body[0], ast.Expr) and isinstance(body[0].value, ast.Call)
+              and isinstance(body[0].value.func, ast.Attribute) and body[0].value.func.attr == "append"
+              and _is_self_attr(body[0].value.func.value) and len(body[0].value.args) == 1
+              and isinstance(body[0].value.args[0], ast.Name) and body[0].value.args[0].id == args[1])
+        if not ok:
+            return False
+    return True if seen_any else None
+
+
 def all_classes():
     import importlib
     import pkgutil
@@ -223,6 +249,7 @@ def describe(cls, bases):
         "onParam": hp,
         "onModel": hm,
         "guards": gs,
+        "appends": listener_append_unconditional(cls),
     }
 
 
@@ -275,6 +302,10 @@ def translate(repo: Path = None):
         "namespace TTGen.C11_Wiring\nopen TT.C11\n\n"
         f"def translatorOk : Bool := {'true' if ok else 'false'}\n\n"
         "def classes : List ClassSpec := [\n" + ",\n".join(rows) + "\n]\n\n"
+        "/-- (class, its add_parameter_listener / add_model_listener are exactly `self.<list>.append(listener)`) -/\n"
+        "def listenerAppends : List (String × Bool) := [\n"
+        + ",\n".join(f"  ({lean_str(d['name'])}, {'true' if d['appends'] else 'false'})" for d in table if d["appends"] is not None)
+        + "\n]\n\n"
         "def find (n : String) : ClassSpec :=\n"
         "  (classes.find? fun c => c.name == n).getD { (default : ClassSpec) with name := \"?\", "
         "onParam := ⟨false, [], .raise⟩, onModel := ⟨false, [], .raise⟩ }\n\n"
